@@ -48,7 +48,7 @@ func init() {
 		mutant{"PrepareRead bounded by the whole buffer length", "byte_buffer.go",
 			"\t\tif b.WriteLen() >= need {", "\t\tif b.Len() >= n {", "C09-R4"},
 		mutant{"PrepareRead commits without checking the write area", "byte_buffer.go",
-			"\t\tif b.WriteLen() >= need {\n\t\t\tb.Commit(need)\n\t\t} else {\n\t\t\terr = sonicerrors.ErrNeedMore\n\t\t}", "\t\tb.Commit(need)", "C09-R4"},
+			"\t\tif b.WriteLen() >= need {\n\t\t\tb.Commit(need)\n\t\t} else {\n\t\t\terr = sonicerrors.ErrNeedMore\n\t\t}", "\t\tif b.WriteLen() < 0 {\n\t\t\terr = sonicerrors.ErrNeedMore\n\t\t}\n\t\tb.Commit(need)", "C09-R4"},
 		mutant{"Consume not clamped to the read area", "byte_buffer.go",
 			"\tif readLen := b.ReadLen(); n > readLen {\n\t\tn = readLen\n\t}\n\n\tif n > 0 {\n\t\t// TODO this can be smarter", "\tif n > 0 {\n\t\t// TODO this can be smarter", "C09-R1"},
 		mutant{"Commit clamps after adding (overflow)", "byte_buffer.go",
